@@ -636,7 +636,10 @@ where
 
         // Create receive over transport task.
         let (recv_tx, mut recv_rx) = mpsc::channel(self.local_cfg.transport_receive_queue);
-        let recv_task = Self::recv_task(&mut transport_stream, self.local_cfg.connection_timeout, recv_tx).fuse();
+        // The timeout is exchanged in whole milliseconds with a minimum of one millisecond,
+        // thus the remote endpoint cannot send pings more often than twice per millisecond.
+        let connection_timeout = self.local_cfg.connection_timeout.map(|t| t.max(Duration::from_millis(1)));
+        let recv_task = Self::recv_task(&mut transport_stream, connection_timeout, recv_tx).fuse();
         pin_mut!(recv_task);
 
         // Setup channels.
